@@ -165,16 +165,35 @@ Proof. exact call_import_norm. Qed.
 Print Assumptions C02_call_import_norm.
 
 (* ------------------------------------------------------------------------------------------
-   Compile slice: for a small fragment (integer literals, tuples without spreads, positional
-   access on the flow and on identifiers, bare binders, chains, sequences) the code generation of
-   compiler.rs is mirrored by lang/LangCompile.v (compared with the real compiler's bytecode on
-   every run) and PROVED to simulate the reference evaluator on the VM model vm/Vm.v (C07's).
+   Compile slice: for a fragment of the core language the code generation of compiler.rs is
+   mirrored by lang/LangCompile.v (compared with the real compiler's bytecode on every run:
+   `qv_ast --code` vs the extracted `compile_program (normalize p)`, identical instructions after
+   resolving constant indices and tuple ids) and PROVED to simulate the reference evaluator on the
+   VM model vm/Vm.v (C07's, itself tied to executor.rs by C07's value-level lock-step run).
+
+   IN the fragment: integer literals; tuple literals without spreads; positional access on the
+   flowing value and on identifiers; the bare binder (`x = chain`, `chain =x`); integer-literal
+   matches (`=5`); chains; sequences with their nil short-circuit; BLOCKS — the block's input in a
+   fresh slot (Store/Load), any number of branches, each a condition sequence with or without a
+   `=>` consequence sequence, fall-through to the next branch with the input re-loaded, Reset of
+   the slots a branch bound and of the block's own slot at the exit.
+   NOT in the fragment (the mirror answers None): a `=>` branch whose CONDITION binds (the
+   compiler then emits an out-of-line failure handler), spreads, label access (`.x`: resolved
+   through the static type), strings/binaries, tuple/partial/star/type/or/pin patterns, function
+   literals and calls (ICall/ITailCall, frames), builtins, imports, processes.  Not mirrored: after
+   a step whose STATIC type is nil the real compiler drops the rest of the sequence (a non-final
+   nil-literal step is refused; the generator produces no other statically-nil value).
+
+   IEqual: the VM model takes the verdict of Equal as an outside input (`x_bool`).  The run the
+   theorems exhibit supplies, at each IEqual of a literal match `=z`, the verdict of the
+   EVALUATOR's own structural equality (`lit_verdict z v`: v is the integer z); every other step
+   uses no outside input.  (C13 proves that the real `values_equal` is that structural equality.)
 
    SIM P fn C caps shapes base rest pers ev c sc sc' (LangCompileProofs.v) reads: whenever the
    evaluator judgement `ev e v` yields (v', e'), the machine of function `fn`, whose code C holds
    `c` at pc, started with a value related to v on top of ANY stack and locals related to the scope
    sc/e above any `base` locals, runs to pc + |c| with a value related to v' on top of the same
-   stack and locals related to sc'/e'. *)
+   stack and locals — an extension of the initial ones — related to sc'/e'. *)
 Theorem C02_compile_simulates :
   forall (P : Quiver.vm.Bytecode.program) (fn : nat) (C : list Quiver.vm.Bytecode.instr) (caps : nat),
     nth_error (Quiver.vm.Bytecode.p_funcs P) fn = Some (Quiver.vm.Bytecode.Build_func C caps) ->
@@ -231,3 +250,19 @@ Theorem C02_normalize_then_compile_correct :
                  Quiver.vm.Vm.Finished mv (Quiver.vm.Vm.Build_state [] (if pers then ls else []) [] pers)).
 Proof. exact normalize_then_compile_correct. Qed.
 Print Assumptions C02_normalize_then_compile_correct.
+
+(* blocks: the term `{ branches }` — Store/Load of the input, the branches with their fall-through
+   and commit jumps, the Resets — leaves the scope and the locals as they were and the block's
+   value on the stack *)
+Theorem C02_compile_block_simulates :
+  forall (P : Quiver.vm.Bytecode.program) (fn : nat) (C : list Quiver.vm.Bytecode.instr) (caps : nat),
+    nth_error (Quiver.vm.Bytecode.p_funcs P) fn = Some (Quiver.vm.Bytecode.Build_func C caps) ->
+    forall (pool : list Z) (shapes : list shape),
+    (forall z k, const_index pool z = Some k -> nth_error (Quiver.vm.Bytecode.p_consts P) k = Some (Quiver.vm.Bytecode.CInt z)) ->
+    (forall sh t, shape_index shapes sh = Some t -> nth_error (Quiver.vm.Bytecode.p_tuples P) t = Some (length (snd sh))) ->
+    (exists r, shapes = nil_shape :: ok_shape :: r) ->
+    forall (base : nat) (rest : list Quiver.vm.Vm.frame) (pers : bool) tf cf imf bs ctx sc c sc',
+    compile_term pool shapes sc (Block (Expression bs)) = Some (c, sc') ->
+    SIM P fn C caps shapes base rest pers (eval_term tf cf imf ctx (Block (Expression bs))) c sc sc'.
+Proof. exact compile_block_simulates. Qed.
+Print Assumptions C02_compile_block_simulates.
